@@ -861,5 +861,8 @@ def stats (s : Cache) (enable reset : Bool) : Cache × Out :=
   let s := if reset then ({ s with hits := 0, misses := 0 }.logSql "setHits").logSql "setMisses" else s
   ({ s with statistics := enable }.logSql "setStatistics", out)
 
+/-- Σ row sizes (executable twin of `sumSizes` in Proofs/Defs) -/
+def sumSizesB (rows : List Row) : Int := (rows.map (fun r => (r.size : Int))).sum
+
 end Cache
 end DC
